@@ -6,7 +6,7 @@ import _mfgen as G
 ID = "C17"
 FAMILY = "manifest"
 RULE = ("mode 1: generated manifests (shards 0..255 and 256..512, metadata/hints/fallbacks 0..256 entries, strings at "
-        "255/256 and 65535/65536, negative, sub-second and extreme expiries, empty schemes) are encoded by the real "
+        "255/256 and 65535/65536 (each over-long field both alone and next to a valid sibling, e.g. a 256..65536-byte transport with a short scheme), discovery schemes equal to / differing only in letter case from / a prefix of their transport, negative, sub-second and extreme expiries, empty schemes) are encoded by the real "
         "encode_manifest and decoded again; oracle: representable -> decode(encode m) = norm m (python rendering of "
         "norm), unrepresentable -> std::length_error. non-trivial = encode accepted and decode succeeded, or a refusal of "
         "an over-limit field; distinct = distinct (over-limit class, implementation output)")
@@ -19,7 +19,7 @@ def generate(rng, tier):
     n = {"quick": 120, "search": 200, "thorough": 450}[tier]
     cases = []
     for over in G.OVERS:
-        for _ in range(1 if tier == "quick" else 3):
+        for _ in range(2 if tier == "quick" else 4):
             m = G.rand_manifest(rng, over=over)
             cases.append({"ints": [1] + G.manifest_ints(m), "tag": "over:" + over})
     for i in range(n):
